@@ -848,10 +848,16 @@ def check_c19(tier, seed):
     # dedicated mirror histories: tiny tuple domain, every write path (engine batches with in-batch repeats, delete requests naming a tuple
     # several times, handler statements, conditional deletes, updates, large batches), a consistent read after every write
     hcases += gen("c19a", seed, 0, 1200 if tier == "quick" else 60000)
+    # worker-batching family at the IncrementalEngine API: command batches built on purpose behind the parked worker
+    hcases += gen("c19w", seed, 0, 400 if tier == "quick" else 20000)
     houts = execute(hcases, timeout_s=300)
     acc.violation_oracles |= {"incremental_read_differs_from_relation", "incremental_read_failed", "persistent_facts_differ_from_model", "report_mismatch", "reopen_failed"}
     reads = 0
     for c, o in zip(hcases, houts):
+        if "batches" in c:
+            acc.add(c, o, o.get("reads_checked", 0) >= 2)
+            reads += o.get("reads_checked", 0)
+            continue
         acc.add(c, o, hop_kinds(c).get("incr_read", 0) >= 1)
         reads += o.get("queries_checked", 0)
     acc.extra["history_half"] = {"runs": len(hcases), "probes_checked": reads}
@@ -861,9 +867,11 @@ def check_c19(tier, seed):
             "'worker disconnected' error, final arrangement = final relation; non-trivial = >=2 threads, >=1 write, >=1 scheduling decision")
     rule += ("; history half: sequential histories over a 2-3 tuple domain through every write path (engine batches with in-batch repeats, delete requests naming a tuple several times "
              "or absent tuples, handler statements, bulk and conditional deletes, updates, large batches, restarts) with incremental maintenance switched on at a seeded step and a consistent "
-             "read of both relations after every write; oracle: arrangement = relation = set model, write reports = model")
+             "read of both relations after every write; oracle: arrangement = relation = set model, write reports = model; worker-batching family (c19w, at the IncrementalEngine "
+             "API): the free-running worker is parked inside a GetIndexStats command, a seeded sequence of inserts / deletes / advances and 1-2 consistent readers is queued, the "
+             "worker drains it as one batch; each reader must return the relation after some prefix of the batch containing everything queued before it, a read after the batch = model")
     return finish(acc, rule, CONC_ASSUME + ["the incremental worker is a free-running real thread, only ever waited on synchronously (request/response)"],
-                  minimiser=lambda case, oracle: minimise_conc(case, oracle) if "threads" in case else minimise_hsc(case, oracle))
+                  minimiser=lambda case, oracle: minimise_conc(case, oracle) if "threads" in case else (minimise_batches(case, oracle) if "batches" in case else minimise_hsc(case, oracle)))
 
 
 def check_c20(tier, seed):
@@ -911,6 +919,34 @@ def minimise_hsc(case, oracle, budget_s=150):
     t0 = time.time()
     case = copy.deepcopy(case)
     case = vlib.ddmin_list(case, "ops", oracle, budget_s, t0)
+    return case
+
+
+def minimise_batches(case, oracle, budget_s=60):
+    """c19w cases: drop whole batches, then single operations, while the same oracle fires."""
+    t0 = time.time()
+    case = copy.deepcopy(case)
+    changed = True
+    while changed and time.time() - t0 < budget_s:
+        changed = False
+        cands = []
+        for bi in range(len(case["batches"])):
+            if len(case["batches"]) > 1:
+                c = copy.deepcopy(case)
+                del c["batches"][bi]
+                cands.append(c)
+            for oi in range(len(case["batches"][bi])):
+                c = copy.deepcopy(case)
+                del c["batches"][bi][oi]
+                cands.append(c)
+        if not cands:
+            break
+        res = vlib._batch_fails(cands, oracle)
+        for c, ok in zip(cands, res):
+            if ok:
+                case = c
+                changed = True
+                break
     return case
 
 
